@@ -164,8 +164,9 @@ __CPROVER_ensures (gh_sg_live == (__CPROVER_return_value == 0))            /* on
 ;
 int read_grammar_use_c (struct grammar *g, int strict_p, const char *(*rt) (int *), const char *(*rr) (const char ***, const char **, int *, int **))
 __CPROVER_requires (g == gh_g && gh_sg_live == 1 && rt == sread_terminal && rr == sread_rule)
-__CPROVER_assigns (gh_rg_ret)
+__CPROVER_assigns (gh_rg_ret, g->undefined_p)
 __CPROVER_ensures (gh_rg_ret == __CPROVER_return_value)
+__CPROVER_ensures (__CPROVER_return_value != 0 ==> g->undefined_p != 0)   /* what RG.prefix / RG.tail prove of yaep_read_grammar: marked undefined first, cleared last */
 ;
 void free_sgrammar_c (void)
 __CPROVER_requires (gh_sg_live == 1)
@@ -175,7 +176,9 @@ __CPROVER_ensures (gh_sg_live == 0)
 int strict_in;
 int parse_grammar_c (struct grammar *g, int strict_p, const char *description)
 __CPROVER_requires (__CPROVER_is_fresh (g, sizeof (*g)) && gh_g == g && gh_sg_live == 0)
-__CPROVER_assigns (grammar, symbs_ptr, term_sets_ptr, rules_ptr, gh_sg_live, gh_err_code, gh_rg_ret)
+__CPROVER_assigns (grammar, symbs_ptr, term_sets_ptr, rules_ptr, gh_sg_live, gh_err_code, gh_rg_ret, g->undefined_p)
+/* C14 / C10: a failed definition - in the front end as well as in yaep_read_grammar - leaves the object undefined (it then refuses to parse) */
+__CPROVER_ensures (__CPROVER_return_value != 0 ==> g->undefined_p != 0)
 /* a failure of the front end returns its code; otherwise exactly what yaep_read_grammar returned on the replayed records */
 __CPROVER_ensures (gh_err_code != 0 ? __CPROVER_return_value == gh_err_code : __CPROVER_return_value == gh_rg_ret)
 __CPROVER_ensures (gh_sg_live == 0)                                        /* the intermediate form is released exactly once on every path */
